@@ -111,6 +111,9 @@ def _worker_init():
     world.setup()
 
 
+from .drive import ScenarioUnavailable  # noqa: E402
+
+
 def _worker_run(args):
     modname, params = args
     try:
@@ -124,6 +127,11 @@ def _worker_run(args):
             world.set_lib_log_level(acc.lib_log)
         try:
             mod.run_shard(params, acc)
+        except ScenarioUnavailable as exc:
+            acc.bump("scenarios_not_prepared", 1)
+            acc.extra.setdefault("scenarios_not_prepared_examples", [])
+            if len(acc.extra["scenarios_not_prepared_examples"]) < 3:
+                acc.extra["scenarios_not_prepared_examples"].append("%s: %s" % (params, str(exc)[:200]))
         finally:
             if acc.lib_log:
                 world.set_lib_log_level(None)
